@@ -15,6 +15,12 @@ func vfSmall(t tabular.Table) {
 	t.AddRowItems("v")
 }
 
+func vfSmallTable() tabular.Table {
+	t := tabular.New()
+	vfSmall(t)
+	return t
+}
+
 func vfHasDot(s string) bool {
 	for i := 0; i < len(s); i++ {
 		if s[i] == '.' {
@@ -74,10 +80,13 @@ func VerifC19_listing() {
 	}
 	// further application names (concrete), so that the registry's own storage has been grown
 	nfix := vfChoice("nfixed", 7)
+	fixedNames := []string{"zz-app", "zz-app.wide", "zz-app.wide.x", "zz-b", "zz-c", "zz-d"}
+	glyphs := []string{"1", "2", "3", "4", "5", "6"}
 	for i := 0; i < nfix; i++ {
-		n := vfName("zz-app-", i)
-		decoration.RegisterDecorationName(n, decoration.ASCIIBoxSimple())
-		extra = append(extra, n)
+		d := decoration.Decoration{Horizontal: "-", Vertical: "|", CrossPiece: glyphs[i]}
+		d.Populate()
+		decoration.RegisterDecorationName(fixedNames[i], d)
+		extra = append(extra, fixedNames[i])
 	}
 	first := ListStyles()
 	list := ListStyles()
@@ -118,6 +127,17 @@ func VerifC19_listing() {
 		vfAssert(err == nil, "advertised-style-renders")
 		if err == nil {
 			vfAssert(out != "", "advertised-style-renders")
+		}
+		// an application-registered name selects the decoration registered under exactly that name
+		for i := 0; i < nfix; i++ {
+			if name == fixedNames[i] {
+				d := decoration.Decoration{Horizontal: "-", Vertical: "|", CrossPiece: glyphs[i]}
+				d.Populate()
+				wantOut, _ := vfTextWith(d)
+				vfAssert(out == wantOut, "listed-name-selects-its-own-decoration")
+				out2, err2 := Render(vfSmallTable(), "texttable."+name)
+				vfAssert(vfAnd(err2 == nil, out2 == wantOut), "name-and-texttable-dot-name-select-same-decoration")
+			}
 		}
 	}
 }
@@ -280,4 +300,31 @@ func VerifC19_names() {
 			vfAssert(vfAnd(err == nil, out == wantOut), "name-and-texttable-dot-name-select-same-decoration")
 		}
 	}
+}
+
+// VerifC19_history: style resolution follows the registry as it is now (an overwritten name selects
+// the new decoration), and wrapping an already styled text table with plain "texttable" gives the default.
+func VerifC19_history() {
+	d1 := decoration.Decoration{Horizontal: "-", Vertical: "|", CrossPiece: "1"}
+	d1.Populate()
+	d2 := decoration.Decoration{Horizontal: "=", Vertical: "!", CrossPiece: "2"}
+	d2.Populate()
+	name := "hist" + vfString("suffix", 1, vfTXT)
+	decoration.RegisterDecorationName(name, d1)
+	out1, err1 := Render(vfSmallTable(), name)
+	want1, _ := vfTextWith(d1)
+	vfAssert(vfAnd(err1 == nil, out1 == want1), "registered-name-renders-its-decoration")
+	decoration.RegisterDecorationName(name, d2)
+	out2, err2 := Render(vfSmallTable(), name)
+	want2, _ := vfTextWith(d2)
+	vfAssert(vfAnd(err2 == nil, out2 == want2), "overwritten-name-renders-the-new-decoration")
+	out3, err3 := Render(vfSmallTable(), "texttable."+name)
+	vfAssert(vfAnd(err3 == nil, out3 == want2), "name-and-texttable-dot-name-select-same-decoration")
+	// a styled text table wrapped again
+	styled := New([]string{"ascii-simple", "none", name}[vfChoice("styled", 3)])
+	vfSmall(styled)
+	again := Wrap(styled, []string{"texttable", "TextTable"}[vfChoice("case", 2)])
+	outA, errA := again.Render()
+	wantA, _ := vfTextWith(decoration.UTF8BoxHeavy())
+	vfAssert(vfAnd(errA == nil, outA == wantA), "plain-texttable-selects-default-decoration")
 }
